@@ -191,6 +191,8 @@ Definition verdict_call (path : string) (route rk ri : Z) (args : list (Z * Z)) 
 (* ------------------------------------------------------- source text stream *)
 
 Definition pinned_sources : list (Z * list Z) := [
+  (17, [110; 101; 119; 32; 70; 117; 110; 99; 116; 105; 111; 110; 40; 34; 125; 41; 44; 40; 102; 117; 110; 99; 116; 105; 111; 110; 40; 41; 123; 34; 41]) (* new Function("}),(function(){") *);
+  (17, [110; 101; 119; 32; 70; 117; 110; 99; 116; 105; 111; 110; 40; 34; 97; 34; 44; 32; 34; 125; 41; 44; 40; 102; 117; 110; 99; 116; 105; 111; 110; 40; 41; 123; 34; 41]) (* new Function("a", "}),(function(){") *);
   (10, [102; 117; 110; 99; 116; 105; 111; 110; 32; 102; 40; 41; 123; 97; 58; 32; 105; 102; 40; 49; 41; 32; 98; 114; 101; 97; 107; 32; 97; 59; 32; 114; 101; 116; 117; 114; 110; 32; 55; 125; 32; 116; 121; 112; 101; 111; 102; 32; 102; 40; 41]) (* function f(){a: if(1) break a; return 7} typeof f() *)
 ].
 
